@@ -25,6 +25,59 @@ def regression():
     return out
 
 
+ATOMS = dict(groups=["g1", "g2", "", "*"], resources=["r1", "r1/status", "r1/finalizers", "r2", "r2/status", "*", "*/status"],
+             names=["n1", "n2", "*"], verbs=["get", "update", "*"], urls=["/a", "/a/b", "/a/*", "*"])
+FIELDS = ["groups", "resources", "names", "verbs", "urls"]
+
+
+def random_vectors(ctx, n):
+    """Seeded random validator vectors beyond the domain TLC enumerates: allow lists and requests of up to
+    three rules whose fields hold up to three atoms. Allow rules are valid ClusterRole rules; about half of
+    the request rules are derived from an allow rule (sub-selection, sometimes one atom changed) so that
+    grants are frequent, the rest are arbitrary (possibly empty or mixed lists)."""
+    rng = ctx.rng
+
+    def pick(field, lo, hi):
+        k = rng.randint(lo, min(hi, len(ATOMS[field])))
+        return sorted(rng.sample(ATOMS[field], k))
+
+    def valid_rule():
+        if rng.random() < 0.25:
+            return dict(groups=[], resources=[], names=[], verbs=pick("verbs", 1, 2), urls=pick("urls", 1, 3))
+        return dict(groups=pick("groups", 1, 3), resources=pick("resources", 1, 3),
+                    names=pick("names", 0, 2) if rng.random() < 0.5 else [], verbs=pick("verbs", 1, 2), urls=[])
+
+    def derived(a):
+        q = {}
+        for f in FIELDS:
+            vals = list(a[f])
+            if vals and not (f == "names" and rng.random() < 0.3):
+                vals = sorted(rng.sample(vals, rng.randint(1, len(vals))))
+            q[f] = vals
+        if rng.random() < 0.4:
+            f = rng.choice([x for x in FIELDS if q[x]] or ["verbs"])
+            q[f] = sorted(set(q[f][1:] + [rng.choice(ATOMS[f])]))
+        if rng.random() < 0.15:
+            q["names"] = []
+        return q
+
+    def arbitrary():
+        return {f: (pick(f, 0, 2) if rng.random() < 0.7 else []) for f in FIELDS}
+
+    out = []
+    for i in range(n):
+        allow = [valid_rule() for _ in range(rng.randint(1, 3))]
+        reqs = []
+        for _ in range(rng.randint(1, 3)):
+            r = rng.random()
+            reqs.append(derived(rng.choice(allow)) if r < 0.6 else valid_rule() if r < 0.8 else arbitrary())
+        out.append({"id": "%s-rnd%d-%06d" % (PID, ctx.seed, i), "input": dict(
+            fam="valr", mode="cr", allow=allow, reqs=reqs,
+            self=dict(label="", src=dict(reg="R0", org="o0", form="tag"), refs=[]), members=[], pre="none",
+            deps=[], prebind="none", xrd=dict(group="", plural="", claim=""))})
+    return out
+
+
 def info_lines(ctx):
     """INFO|<name>|<line>|<scenario> lines of the monitor runs (information, never a verdict)."""
     counts, examples = {}, {}
@@ -69,7 +122,8 @@ def run(ctx):
                           expect_violations=("DesignSoundStrict",))
     budget = 60000 if quick else 400000
     scs = [{"id": "%s-%07d" % (PID, i), "input": v} for i, v in ctx.sample_lines(mc["emitted_file"], budget, mc["emitted"])]
-    chosen = regression() + scs
+    rnd = random_vectors(ctx, 5000 if quick else 150000)
+    chosen = regression() + scs + rnd
     s, nlines, per_formula, info, examples = drive_and_judge(ctx, chosen)
     samples = []
     for ev in s["samples"][:3]:
@@ -80,7 +134,7 @@ def run(ctx):
         traces_validated_against_impl=s["runs"], samples=samples,
         model_runs={cfg: dict(states=mc["states"], transitions=mc["transitions"], vectors=mc["emitted"]),
                     "MCRBAC_d12.cfg": dict(states=d12["states"], violated=d12["violated"])},
-        vectors_emitted=mc["emitted"], vectors_replayed=len(scs), regression_scenarios=len(chosen) - len(scs),
+        vectors_emitted=mc["emitted"], vectors_replayed=len(scs), regression_scenarios=len(chosen) - len(scs) - len(rnd), random_vectors=len(rnd),
         vectors_by_family=s["by_family"], antecedent_hits=s["counts"], events=nlines,
         monitor_formulas=MON_FORMULAS, violations_by_formula=per_formula,
         information=dict(counts=info, examples=examples, formulas=INFO_FORMULAS),
